@@ -232,6 +232,8 @@ def segment_of(trace_path, index):
     if not lines:
         return "", {}
     index = min(index, len(lines) - 1)
+    if index > 0 and '"ev":"reset"' in lines[index]:
+        index -= 1          # (the next run's first line: stay in the run that was being validated)
     start = index
     while start > 0 and '"ev":"reset"' not in lines[start]:
         start -= 1
